@@ -1,0 +1,16 @@
+//go:build verif
+
+package reorgdetector
+
+import "sync"
+
+// Under the verif tag the lock that serialises the header requests of one reorg check is built on a channel:
+// the check holds it across the RPC call, and a goroutine waiting for a sync.Mutex is not "durably blocked"
+// for testing/synctest, so the simulator could never see the detector quiescent while the RPC is parked and a
+// second subscriber waits for the lock. Same exclusion, same order of acquisition; tag off: a plain sync.Mutex.
+type chanLock chan struct{}
+
+func (c chanLock) Lock()   { c <- struct{}{} }
+func (c chanLock) Unlock() { <-c }
+
+func newHeadersCacheLock() sync.Locker { return make(chanLock, 1) }
